@@ -577,14 +577,29 @@ func main() {
 	r.Bound("long_sweep_long_strings", len(longs))
 	mc.ParallelFor(len(longs), func(i int) { row(n+i, longs[i], short) })            // large deletions
 	mc.ParallelFor(len(short), func(i int) { row(n+len(longs)+i, short[i], longs) }) // large insertions
-	// long against long: same prefix/suffix family, different filler or count
-	step := mc.Pick(r, 97, 7)
-	mc.ParallelFor(len(longs), func(i int) {
-		var afters []string
-		for j := i % step; j < len(longs); j += step {
-			afters = append(afters, longs[j])
+	// long against long: always built from the <= 2-symbol prefixes/suffixes (5292 strings), every
+	// string against every step-th one (quick: 97, thorough: 13).
+	short2 := allOver([]string{"a", "b", "c", "\n"}, 2)
+	var longs2 []string
+	for _, f := range fillers {
+		for _, k := range ks {
+			mid := strings.Repeat(f, k)
+			for _, p := range short2 {
+				for _, q := range short2 {
+					longs2 = append(longs2, p+mid+q)
+				}
+			}
 		}
-		row(n+2*len(longs)+i, longs[i], afters)
+	}
+	step := mc.Pick(r, 97, 13)
+	r.Bound("long_vs_long_strings", len(longs2))
+	r.Bound("long_vs_long_step", step)
+	mc.ParallelFor(len(longs2), func(i int) {
+		var afters []string
+		for j := i % step; j < len(longs2); j += step {
+			afters = append(afters, longs2[j])
+		}
+		row(n+2*len(longs)+i, longs2[i], afters)
 	})
 
 	for k := range col.out {
